@@ -75,6 +75,7 @@ structure Cfg where
   hasWS : Bool                       -- the programmer wrote write_<struct>
   hasR : String → Bool               -- the programmer wrote read_<m> (either layout)
   hasW : String → Bool               -- the programmer wrote write_<m> (either layout)
+  omitUnch : Bool := false           -- `omit_unchanged_within`: 0 (false) or longer than the whole history (true)
 
 /-- `hasStructRW = hasattr(owner, 'read_<struct>') or hasattr(owner, 'write_<struct>')` -/
 def Cfg.combined (cfg : Cfg) : Bool := cfg.hasRS || cfg.hasWS
@@ -82,6 +83,8 @@ def Cfg.combined (cfg : Cfg) : Bool := cfg.hasRS || cfg.hasWS
 structure St where
   struct : Dict
   mem : Dict
+  sP : Bool := false                 -- the next update of the struct cannot be omitted: `readerror` is set or it was never announced
+  mP : List String := []             -- the members for which the same holds
   evs : List Ev := []
   ok : Bool := true
   exc : Option ExcKind := none       -- the driver exception that escaped from the operation (`none`: none, or a framework error)
@@ -96,39 +99,54 @@ def fine (s : St) : St := { s with ok := true }
 /-- the operation ends with the exception `e` of a driver body -/
 def failedExc (e : Option ExcKind) (s : St) : St := { s with ok := false, exc := e }
 
+/-- `announceUpdate` returns before storing, callbacks and update message (modulebase.py:563-575): the value is the one
+in the cache, the window is open and nothing is pending -/
+def omittedS (cfg : Cfg) (same pend : Bool) : Bool := cfg.omitUnch && same && !pend
+
+def pendM (s : St) (m : String) : Bool := s.mP.contains m
+def clearM (s : St) (m : String) : List String := s.mP.filter (· != m)
+
+/-- an error is announced for the struct parameter / a member parameter (`announceUpdate(…, err=e)`): `readerror` is set; the
+callbacks do not get along with the extra argument (an exception inside them is swallowed) -/
+def structError (s : St) : St := { s with sP := true }
+def memberError (m : String) (s : St) : St := { s with mP := if s.mP.contains m then s.mP else s.mP ++ [m] }
+
 /-- `announceUpdate(member, x)` while `insideRW > 0` (the member callback does nothing) -/
-def announceMemberIn (m : String) (x : Val) (s : St) : St :=
-  emit { s with mem := s.mem.set m x } (.mem m x)
+def announceMemberIn (cfg : Cfg) (m : String) (x : Val) (s : St) : St :=
+  if omittedS cfg (s.mem.lookup m == some x) (pendM s m) then s
+  else emit { s with mem := s.mem.set m x, mP := clearM s m } (.mem m x)
 
 /-- the loop of `struct_cb`; a missing key ends it (the `KeyError` is swallowed by `announceUpdate`) -/
-def setMembers : List String → Dict → St → St
+def setMembers (cfg : Cfg) : List String → Dict → St → St
   | [], _, s => s
   | m :: ms, d, s =>
     match d.lookup m with
     | none => s
-    | some x => setMembers ms d (announceMemberIn m x s)
+    | some x => setMembers cfg ms d (announceMemberIn cfg m x s)
 
-/-- `announceUpdate(struct, d)` with an already validated `d`: store, callbacks, update message -/
+/-- `announceUpdate(struct, d)` with an already validated `d`: unless omitted — store, callbacks, update message -/
 def announceStruct (cfg : Cfg) (d : Dict) (s : St) : St :=
-  emit (setMembers cfg.members d { s with struct := d }) (.struct d)
+  if omittedS cfg (s.struct == d) s.sP then s
+  else emit (setMembers cfg cfg.members d { s with struct := d, sP := false }) (.struct d)
 
 /-- `setattr(modobj, struct, d)`: `announceUpdate` validates; an invalid value only sets `readerror` -/
 def assignStruct (cfg : Cfg) (d : Dict) (s : St) : St :=
-  if wf cfg d then announceStruct cfg d s else s
+  if wf cfg d then announceStruct cfg d s else structError s
 
-/-- `announceUpdate(member, x)` with `insideRW = 0`: the member callback writes the struct first -/
+/-- `announceUpdate(member, x)` with `insideRW = 0`: unless omitted, the member callback writes the struct first -/
 def announceMember (cfg : Cfg) (m : String) (x : Val) (s : St) : St :=
-  emit (assignStruct cfg (s.struct.set m x) { s with mem := s.mem.set m x }) (.mem m x)
+  if omittedS cfg (s.mem.lookup m == some x) (pendM s m) then s
+  else emit (assignStruct cfg (s.struct.set m x) { s with mem := s.mem.set m x, mP := clearM s m }) (.mem m x)
 
 /-! ### combined layout -/
 
 /-- wrapped `read_<struct>` around the programmer's body returning `r` -/
 def readStructA (cfg : Cfg) (r : RRes Dict) (s : St) : St :=
   match r with
-  | .fail k => failedExc (some k) s
-  | .ok d => if wf cfg d then fine (announceStruct cfg d s) else failed s
+  | .fail k => failedExc (some k) (structError s)
+  | .ok d => if wf cfg d then fine (announceStruct cfg d s) else failed (structError s)
 
-/-- wrapped `write_<struct>(v)` -/
+/-- wrapped `write_<struct>(v)` (a write wrapper announces no errors) -/
 def writeStructA (cfg : Cfg) (v : Dict) (w : WRes Dict) (s : St) : St :=
   if !wf cfg v then failed s else
   match w with
@@ -146,19 +164,19 @@ storing the validated value -/
 def writeStructC (cfg : Cfg) (v : Dict) (w : WRes Dict) (s : St) : St :=
   if cfg.hasWS then writeStructA cfg v w s else writeStructA cfg v .retNone s
 
-/-- wrapped generated `read_<member>` -/
+/-- wrapped generated `read_<member>`: a failure of `read_<struct>` passes through both wrappers, each announces it -/
 def readMemberA (cfg : Cfg) (m : String) (r : RRes Dict) (s : St) : St :=
   let s1 := readStructC cfg r s
-  if !s1.ok then s1 else
+  if !s1.ok then memberError m s1 else
   match s1.struct.lookup m with
-  | none => failed s1
+  | none => failed (memberError m s1)
   | some x => fine (announceMember cfg m x s1)
 
 /-- wrapped programmer-written `read_<m>` (either layout; without one: the plain wrapper returning the cached value) -/
 def readMemberB (cfg : Cfg) (m : String) (r : RRes Val) (s : St) : St :=
   if cfg.hasR m then
     match r with
-    | .fail k => failedExc (some k) s
+    | .fail k => failedExc (some k) (memberError m s)
     | .ok x => fine (announceMember cfg m x s)
   else fine s
 
@@ -198,8 +216,8 @@ def readIter (cfg : Cfg) (r : String → RRes Val) (l : Loop) (m : String) : Loo
   if l.stop then l else
   if cfg.hasR m then
     match r m with
-    | .fail k => { l with stop := true, exc := some k }
-    | .ok x => { l with st := announceMemberIn m x l.st, result := l.result ++ [(m, x)] }
+    | .fail k => { l with st := memberError m l.st, stop := true, exc := some k }
+    | .ok x => { l with st := announceMemberIn cfg m x l.st, result := l.result ++ [(m, x)] }
   else
     match l.st.mem.lookup m with
     | none => { l with stop := true }
@@ -214,23 +232,26 @@ def writeIter (cfg : Cfg) (v : Dict) (w : String → WRes Val) (l : Loop) (m : S
     if cfg.hasW m then
       match w m with
       | .fail k => { l with stop := true, exc := some k }
-      | .retNone => { l with st := announceMemberIn m req l.st, result := l.result ++ [(m, req)] }
-      | .ret x => { l with st := announceMemberIn m x l.st, result := l.result ++ [(m, x)] }
-    else { l with st := announceMemberIn m req l.st, result := l.result ++ [(m, req)] }
+      | .retNone => { l with st := announceMemberIn cfg m req l.st, result := l.result ++ [(m, req)] }
+      | .ret x => { l with st := announceMemberIn cfg m x l.st, result := l.result ++ [(m, x)] }
+    else { l with st := announceMemberIn cfg m req l.st, result := l.result ++ [(m, req)] }
+
+/-- the wrapper of the generated struct method ends with an exception: a read wrapper announces it, a write wrapper does not -/
+def loopError (isRead : Bool) (s : St) : St := if isRead then structError s else s
 
 /-- what follows the loop: `finally` (re-synchronise after a failure), then the wrapper -/
-def finishLoop (cfg : Cfg) (l : Loop) : St :=
+def finishLoop (cfg : Cfg) (isRead : Bool) (l : Loop) : St :=
   if l.result.length < cfg.members.length then
-    failedExc l.exc (assignStruct cfg (Dict.merge l.st.struct l.result) l.st)
+    failedExc l.exc (loopError isRead (assignStruct cfg (Dict.merge l.st.struct l.result) l.st))
   else if wf cfg l.result then fine (announceStruct cfg l.result l.st)
-  else failed l.st
+  else failed (loopError isRead l.st)
 
 def readStructB (cfg : Cfg) (r : String → RRes Val) (s : St) : St :=
-  finishLoop cfg (cfg.members.foldl (readIter cfg r) { st := s })
+  finishLoop cfg true (cfg.members.foldl (readIter cfg r) { st := s })
 
 def writeStructB (cfg : Cfg) (v : Dict) (w : String → WRes Val) (s : St) : St :=
   if !wf cfg v then failed s else
-  finishLoop cfg (cfg.members.foldl (writeIter cfg v w) { st := s })
+  finishLoop cfg false (cfg.members.foldl (writeIter cfg v w) { st := s })
 
 /-! ### operations -/
 
@@ -251,7 +272,7 @@ def step (cfg : Cfg) (s : St) : Op → St
   | .writeMember m v wA rA wB rB =>
     if !cfg.members.contains m then failed s
     else if cfg.combined && !cfg.hasW m then writeMemberA cfg m v wA rA rB s else writeMemberB cfg m v wB s
-  | .driverAssignStruct v => if wf cfg v then fine (assignStruct cfg v s) else failed s   -- not stored: `readerror`
+  | .driverAssignStruct v => if wf cfg v then fine (assignStruct cfg v s) else failed (structError s)   -- not stored: `readerror`
   | .driverAssignMember m v => if !cfg.members.contains m then failed s else fine (announceMember cfg m v s)
 
 def step1 (cfg : Cfg) (s : St) (op : Op) : St := step cfg { s with evs := [], exc := none } op
